@@ -382,6 +382,7 @@ func (d *Data) queryBackingStore(ctx storage.VersionedCtx, w http.ResponseWriter
 	queryL ListQueryJSON, fieldMap map[string]struct{}, showFields Fields, onlyidOut bool) (err error) {
 
 	dvid.Infof("store query using mdb with queryL: %v\n", queryL)
+	showUser, showTime := showFields.Bools()
 	numMatches := 0
 	process_func := func(key string, value NeuronJSON) {
 		if matches, err := queryMatch(queryL, value); err != nil {
@@ -403,7 +404,7 @@ func (d *Data) queryBackingStore(ctx storage.VersionedCtx, w http.ResponseWriter
 			numMatches++
 			return
 		}
-		out := removeReservedFields(value, showFields)
+		out := selectFields(value, fieldMap, showUser, showTime)
 		jsonBytes, err := json.Marshal(out)
 		if err != nil {
 			dvid.Errorf("error in JSON encoding: %v\n", err)
